@@ -14,7 +14,8 @@ for i in range(1, 21):
     for rule, st in ri.items():
         if rule in ("FLOOR", "SELFTEST", "VTA", "RUN"):
             continue
-        n = sum(v for k, v in st.items() if k != "info")
+        # only what holds counts towards a floor: a known finding that gets repaired must not trip it
+        n = sum(v for k, v in st.items() if k in ("discharged", "justified"))
         if n > 0:
             fl[rule] = max(1, int(n * 0.6))
     floors[pid] = fl
